@@ -32,6 +32,8 @@ pub struct TreeSpec {
     pub dotted: bool,
     /// top-level a.txt.txtpp includes sub/b.txt
     pub include_variant: bool,
+    /// directories whose own names look like sources (conf.txtpp.d/, sub/tpl.txtpp/) hold sources too
+    pub dirlike: bool,
 }
 
 impl TreeSpec {
@@ -48,6 +50,10 @@ impl TreeSpec {
                     v.push(join(d, s));
                 }
             }
+        }
+        if self.dirlike {
+            v.push("conf.txtpp.d/a.txt.txtpp".to_string());
+            v.push("sub/tpl.txtpp/c.txtpp".to_string());
         }
         v
     }
@@ -85,11 +91,11 @@ impl TreeSpec {
         }
     }
     pub fn to_json(&self) -> Value {
-        json!({"masks": self.masks, "dotted": self.dotted, "include_variant": self.include_variant})
+        json!({"masks": self.masks, "dotted": self.dotted, "include_variant": self.include_variant, "dirlike": self.dirlike})
     }
     pub fn from_json(v: &Value) -> TreeSpec {
         let m: Vec<u8> = v["masks"].as_array().unwrap().iter().map(|x| x.as_u64().unwrap() as u8).collect();
-        TreeSpec { masks: [m[0], m[1], m[2]], dotted: v["dotted"].as_bool().unwrap_or(false), include_variant: v["include_variant"].as_bool().unwrap_or(false) }
+        TreeSpec { masks: [m[0], m[1], m[2]], dotted: v["dotted"].as_bool().unwrap_or(false), include_variant: v["include_variant"].as_bool().unwrap_or(false), dirlike: v["dirlike"].as_bool().unwrap_or(false) }
     }
 }
 
@@ -191,7 +197,7 @@ fn check_case(rep: &Report, env: &Env, spec: &TreeSpec, inputs: &[String], recur
     let want = expected_set(spec, &inputs_plain, recursive, mode);
     let src_tree = spec.tree();
     let all_sources = spec.sources();
-    let desc = format!("tree masks={:?}{}{} inputs={:?} recursive={} mode={:?} base={}", spec.masks, if spec.dotted { " +dotted" } else { "" }, if spec.includes() { " +include" } else { "" }, inputs, recursive, mode, if rel { "relative" } else { "absolute" });
+    let desc = format!("tree masks={:?}{}{} inputs={:?} recursive={} mode={:?} base={}", spec.masks, if spec.dotted { " +dotted" } else if spec.dirlike { " +source-like directory names" } else { "" }, if spec.includes() { " +include" } else { "" }, inputs, recursive, mode, if rel { "relative" } else { "absolute" });
     let viol = |sig: &str, msg: String| rep.violate(sig, format!("{desc} :: {msg}"), rj(spec, inputs, recursive, mode, rel));
     match mode {
         Mode::Build | Mode::InMemoryBuild => {
@@ -349,18 +355,21 @@ pub fn run_c11(tier: &str) -> i32 {
     let quick_masks: [[u8; 3]; 8] = [[0, 0, 0], [7, 0, 0], [1, 2, 4], [7, 7, 7], [0, 7, 0], [0, 0, 7], [5, 2, 0], [2, 5, 3]];
     if thorough {
         for m in 0..512u32 {
-            specs.push(TreeSpec { masks: [(m & 7) as u8, (m >> 3 & 7) as u8, (m >> 6 & 7) as u8], dotted: false, include_variant: false });
+            specs.push(TreeSpec { masks: [(m & 7) as u8, (m >> 3 & 7) as u8, (m >> 6 & 7) as u8], dotted: false, include_variant: false, dirlike: false });
         }
     } else {
         for m in quick_masks {
-            specs.push(TreeSpec { masks: m, dotted: false, include_variant: false });
+            specs.push(TreeSpec { masks: m, dotted: false, include_variant: false, dirlike: false });
         }
     }
     for m in quick_masks {
-        specs.push(TreeSpec { masks: m, dotted: true, include_variant: false });
+        specs.push(TreeSpec { masks: m, dotted: true, include_variant: false, dirlike: false });
     }
     for m in [[7, 7, 7], [1, 2, 0], [7, 2, 4]] {
-        specs.push(TreeSpec { masks: m, dotted: false, include_variant: true });
+        specs.push(TreeSpec { masks: m, dotted: false, include_variant: true, dirlike: false });
+    }
+    for m in [[0, 0, 0], [7, 7, 7], [1, 2, 4]] {
+        specs.push(TreeSpec { masks: m, dotted: false, include_variant: false, dirlike: true });
     }
     let lists = input_lists(if thorough { 2 } else { 1 });
     let lists1 = input_lists(1);
